@@ -195,7 +195,18 @@ fn expression_strigify_write<'s, W: FmtWrite>(
             dot_location,
             field_location,
         } => {
+            // `1.p` does not read back as a member access: the dot would belong to the number
+            let number_obj = matches!(
+                &**obj,
+                Expression::LitInt { .. } | Expression::LitFloat { .. }
+            );
+            if number_obj {
+                stringifier.write_str("(")?;
+            }
             expression_strigify_write(obj, stringifier, ExpressionLevel::Member)?;
+            if number_obj {
+                stringifier.write_str(")")?;
+            }
             stringifier.write_token(".", None, dot_location)?;
             stringifier.write_token(&field_name, Some(&field_name), field_location)?;
         }
